@@ -94,3 +94,62 @@ Definition oval_eqb (a b : option val) : bool :=
 Definition acc_eqb (a b : acc) : bool :=
   (a_count a =? a_count b) && (a_sum a =? a_sum b) && (a_sumsq a =? a_sumsq b)
   && oval_eqb (a_min a) (a_min b) && oval_eqb (a_max a) (a_max b) && oval_eqb (a_first a) (a_first b).
+
+(** ** AggregatePushOperator / SpillableAggregatePushOperator (operators/push/aggregate.rs): GROUP BY
+    with one accumulator per aggregate expression and group.  The operator's [Accumulator] is the
+    accumulator above without the sum of squares (on the modelled values its add/min/max/first are
+    the same functions).  The in-memory operator identifies a group by the 64-bit hashes of its key
+    values, the spilling one by the (serialized) key values themselves: the key type is a parameter. *)
+Inductive aggf := ACount | ASum | AMin | AMax | AAvg | AFirst.
+Record aggexpr := { ag_fn : aggf; ag_col : option nat }.
+
+Definition agg_add (r : row) (e : aggexpr) (a : acc) : acc :=
+  match ag_col e with
+  | None => {| a_count := a_count a + 1; a_sum := a_sum a; a_sumsq := a_sumsq a;
+               a_min := a_min a; a_max := a_max a; a_first := a_first a |}       (* COUNT( * ) *)
+  | Some c => match nth_error r c with Some v => add a v | None => a end
+  end.
+(** AVG = sum / count in binary64: kept as the exact fraction (two cells) *)
+Definition agg_fin (e : aggexpr) (a : acc) : list val :=
+  match ag_fn e with
+  | ACount => [finalize_count a]
+  | ASum => [finalize_sum a]
+  | AMin => [finalize_min a]
+  | AMax => [finalize_max a]
+  | AFirst => [finalize_first a]
+  | AAvg => if a_count a =? 0 then [VNull] else [VFlt (a_sum a); VInt (a_count a)]
+  end.
+
+Fixpoint zipw {A B C} (f : A -> B -> C) (l1 : list A) (l2 : list B) : list C :=
+  match l1, l2 with
+  | a :: t1, b :: t2 => f a b :: zipw f t1 t2
+  | _, _ => []
+  end.
+
+Section Group.
+  Context {K : Type}.
+  Variable keq : K -> K -> bool.
+  Variable aggs : list aggexpr.
+
+  (** groups in first-occurrence order: key, key values of the first row of the group, accumulators *)
+  Definition gstate := list (K * row * list acc).
+  Definition accs0 : list acc := map (fun _ => acc0) aggs.
+  Definition step_accs (r : row) (accs : list acc) : list acc := zipw (agg_add r) aggs accs.
+
+  Fixpoint gadd (gs : gstate) (k : K) (kv : row) (r : row) : gstate :=
+    match gs with
+    | [] => [(k, kv, step_accs r accs0)]
+    | (k', kv', accs) :: t =>
+        if keq k' k then (k', kv', step_accs r accs) :: t else (k', kv', accs) :: gadd t k kv r
+    end.
+
+  (** rows arrive as (group key, key values, row) *)
+  Definition group_fold (rows : list (K * row * row)) (gs : gstate) : gstate :=
+    fold_left (fun g x => gadd g (fst (fst x)) (snd (fst x)) (snd x)) rows gs.
+  Definition group_rows (gs : gstate) : list row :=
+    map (fun g => snd (fst g) ++ concat (zipw agg_fin aggs (snd g))) gs.
+  (** GROUP BY: one output row per group; global aggregate (no GROUP BY): exactly one row *)
+  Definition group_by (rows : list (K * row * row)) : list row := group_rows (group_fold rows []).
+  Definition global_agg (rows : list row) : list row :=
+    [concat (zipw agg_fin aggs (fold_left (fun accs r => step_accs r accs) rows accs0))].
+End Group.
